@@ -13,11 +13,15 @@ FILE = ROOT / "known_findings.json"
 
 @lru_cache(maxsize=None)
 def _load():
-    if not FILE.exists():
-        return []
-    with open(FILE) as f:
-        data = json.load(f)
-    return data["findings"]
+    out = []
+    if FILE.exists():
+        with open(FILE) as f:
+            out.extend(json.load(f)["findings"])
+    # per-property fragments (same entry format), merged read-only
+    for frag in sorted((ROOT / "known_findings.d").glob("*.json")):
+        with open(frag) as f:
+            out.extend(json.load(f)["findings"])
+    return out
 
 
 def entries(prop=None, status=None):
